@@ -177,6 +177,11 @@ func (c *completion) complete(args []string) []Completion {
 
 	var opt *Option
 
+	// Number of words seen which the parser would pass on as remaining
+	// arguments; like the parser, commands are only looked up before the
+	// first of them
+	remaining := 0
+
 	for len(s.args) > 1 {
 		arg := s.pop()
 
@@ -233,8 +238,10 @@ func (c *completion) complete(args []string) []Completion {
 					// it consumes all subsequent args).
 					s.positional = s.positional[1:]
 				}
-			} else if cmd, ok := s.lookup.commands[arg]; ok {
+			} else if cmd, ok := s.lookup.commands[arg]; ok && remaining == 0 {
 				cmd.fillParseState(s)
+			} else {
+				remaining++
 			}
 
 			opt = nil
@@ -279,7 +286,7 @@ func (c *completion) complete(args []string) []Completion {
 	} else if len(s.positional) > 0 {
 		// Complete for positional argument
 		ret = c.completeValue(s.positional[0].value, "", lastarg)
-	} else if len(s.command.commands) > 0 {
+	} else if len(s.command.commands) > 0 && remaining == 0 {
 		// Complete for command
 		ret = c.completeCommands(s, lastarg)
 	}
